@@ -599,7 +599,7 @@ def c14(a):
     for p, (r, verdicts) in parallel([(lambda t=t, p=p: (p, pipeline.judge_expr(p, t.replace("/", "-")))) for t, p in good], 12):
         v.add_tlc(r, f"Judge_Expr[{os.path.basename(p)}]")
         file_verdicts(v, p, verdicts, what)
-    v.notes.append("direction B: chains of 9..300 operands (sizes 31-33, 63-66, 127-130, 191-194, 257, 300) with ascending, descending, "
+    v.notes.append("direction B: chains of 9..250 operands (sizes 31-33, 63-66, 127-130, 191-194, 249, 250; TLC's JSON reader nests at most 255 deep) with ascending, descending, "
                    "alternating, inside-out, random and strided priority patterns (up to 90 priority levels, ties beyond), judged from the text")
     v.cov["rule"] = "all permutations of application order for <= 8/9 operands (exhaustive) + structured/random orders for long chains"
     v.cov["distinct_nontrivial"] = summ.get("cases", 0)
@@ -1121,21 +1121,25 @@ def c12(a):
     # sign operators, a constant) is parsed, brought into the deep form three ways, printed, parsed again (flat and deep),
     # and the result judged against the meaning of the original text
     expr_dir_a(v, "C12", a.tier, ["d_up", "f2d_up", "fwo2d_up", "d_up_d", "f2d_up_d"], "a printed expression does not parse back to the same expression",
-               runs=[r for r in expr_runs(a.tier) if not (q and r["table"] == "T8" and r["n"] >= 3)])
+               runs=[r for r in expr_runs(a.tier) if not (q and r["table"] == "T8" and r["n"] >= 3)]
+                    + [dict(table="TAdv", n=2, maxun=2)] + ([] if q else [dict(table="TAdv", n=3, maxun=1)]))
     na = v.cov["distinct_nontrivial"]
     # model level: DeepImpl.Unparse (transcription of unparse_raw) prints every enumerated deep expression - parsed, and
     # rebuilt from the flat form - to a text whose reference meaning is the expression (folded numbers spelled as a literal)
     deep_model(v, "C12", a.tier, ["UnparseRefines"])
+    # the same over the adversarial names of TAdv (binary `at` + unary `an` = unary `atan`, binary `s` + unary `n`, constant `e`)
+    mc_shards(v, "MC_Deep", {"T": ("<-", "TAdv"), "NLeaves": 2, "MaxUn": 2, "WithConst": True, "BumpGuard": True, "FoldRule": "local"},
+              ["UnparseRefines", "DeepRefines"], 4, "C12/mcdeep-TAdv-n2")
     # ... and the invariant is not vacuous: the printer of the pinned snapshot (no blanks around alphabetic operator names,
     # defect F7) violates it
     cfgp = work("C12", "mcdeep-pinned.cfg")
-    write_cfg(cfgp, {"T": ("<-", "T8"), "NLeaves": 2, "MaxUn": 2, "WithConst": True, "BumpGuard": True, "FoldRule": "local", "Shard": 0, "NShards": 1},
+    write_cfg(cfgp, {"T": ("<-", "TAdv"), "NLeaves": 2, "MaxUn": 2, "WithConst": True, "BumpGuard": True, "FoldRule": "local", "Shard": 0, "NShards": 1},
               invariants=["UnparseRefinesPinned"])
     rp = vlib.run_tlc("MC_Deep", cfgp, "C12-mcdeep-pinned", workers=4, timeout=900, heap="3g")
     if rp.violated != "UnparseRefinesPinned":
         print(rp.out[-2000:])
         raise vlib.ToolError("MC_Deep: the printer without blanks is expected to violate UnparseRefinesPinned (witness of F7) - spec bug")
-    v.notes.append("MC_Deep.UnparseRefinesPinned is violated as expected (`+(+({x1}mnK))`): the printing invariant tells the fixed printer from the pinned one")
+    v.notes.append("MC_Deep.UnparseRefinesPinned is violated as expected on TAdv (operator names glued to the next token): the printing invariant tells the fixed printer from the pinned one")
     calc_pipeline(v, "C12", a.tier, ["print", "op", "conv"] if q else ["print", "op", "std", "subs", "conv", "diff"], 2,
                   ["print", "mixed", "advnames", "typed"], {"reparse", "serde", "seed"}, "a printed expression does not parse back to the same expression",
                   400 if q else 6000)
@@ -1397,7 +1401,7 @@ def c20(a):
         tag = work("C20", f"threads-{k}")
         with open(tag + ".in", "w") as f:
             f.write(json.dumps(cfgrec) + "\n")
-        pr = vlib.run_recorder(["threads", "--threads", "16", "--rounds", "12" if q else "40", "--summary", tag + ".sum", "--second-parity", str(k % 2)],
+        pr = vlib.run_recorder(["threads", "--threads", "16", "--rounds", "12" if q else "40", "--summary", tag + ".sum", "--second-parity", str(k % 2), "--first-table", str([0, 0, 1, 2][k % 4])],
                                stdin_path=tag + ".in", stdout_path=tag + ".obs.ndjson", timeout=600)
         return k, pr.returncode, tag + ".obs.ndjson", tag + ".sum"
     results = parallel([(lambda k=k: one(k)) for k in range(runs)], 4)
